@@ -15,8 +15,9 @@ EXPLANATION = (
     "`sometimes`; (begin) every rooting leaf emitted by the encoder at an initial position has a language inside "
     "SEP.Sigma* (shared with the C01 emission table); (semantic) a literal sequence is semantic iff its text is `.` or "
     "`..`, and (dots) on a catalogue of buildable expressions with `.` / `..` at every position (after / before a separator or tree wildcard, at either end, inside alternations and repetitions two levels deep) the public query Glob::has_semantic_literals, evaluated on a glob holding the tree (std::path calls through the abstract path model), answers true whenever a component delimited on both sides is spelled `.` or `..`.  That a built glob never reports `sometimes` "
-    "follows from the rule checker (C06) and is reported there.")
-RULES = "C12.sound (TABLE on a catalogue: verdict vs. language), C12.rooting (TABLE), C12.begin (EMIT), C12.semantic (TABLE), C12.dots (TABLE on a catalogue: the public query Glob::has_semantic_literals vs. delimited dot components)"
+    "follows from the rule checker (C06) and is reported there.  "
+    "(text) on the ~3 700 buildable texts of the C06.text catalogue Token::has_root never answers `sometimes` (one known family: rooting through a nested group).")
+RULES = "C12.sound (TABLE on a catalogue: verdict vs. language), C12.rooting (TABLE), C12.begin (EMIT), C12.semantic (TABLE), C12.dots (TABLE on a catalogue: the public query Glob::has_semantic_literals vs. delimited dot components), C12.text (TABLE on a text catalogue: no buildable text reports `sometimes`)"
 
 WHEN = "query::When"
 
@@ -35,6 +36,8 @@ def run(ctx):
     encoder.rule_begin(F, R)
     from . import exhaust
     exhaust.report_query(F, R, "C12.sound", ctx.tier, "root", 10000, 1500)
+    from . import parsecat
+    parsecat.report_sometimes(F, R, "C12.text")
 
 
 def rule_rooting(F, R):
